@@ -1,24 +1,39 @@
 """C16 - a measurement round ends by its deadline, counts each result once, leaks nothing.
 
 1. TLC decides the property section of spec/Collect.tla (safety + NoLeak under
-   fairness) for every scenario with <= 3 (quick) / <= 4 (thorough) clocks.
-2. TLC (Emit; Collect_gen.cfg in the thorough tier) prints every reachable final
-   outcome of every scenario; grouped by scenario this is the scenario list replayed on
-   the real code and, per scenario, the SET of outcomes the code may show.
-3. harness/c16 runs the real MeasureClockOffsets in synctest bubbles.
-4. CollectTrace.tla: monitor = Collect's property section on the recorded final
-   states (VIOLATION); strict = membership in the TLC-computed set (DRIFT).
+   fairness) for every single round with <= 3 (quick) / <= 4 (thorough) clocks, and for
+   every HISTORY of rounds on one collector (Collect_rounds*.cfg: the next round starts
+   0 or 1 units after the previous return, while clocks, blocked senders and drain
+   goroutines of earlier rounds are alive; clocks that answer during / at the deadline
+   of / after the next round).
+2. TLC generates what is replayed on the real code:
+   a. (Emit; Collect_gen.cfg in the thorough tier) every reachable final outcome of
+      every single-round scenario; grouped by scenario this is the scenario list and,
+      per scenario, the SET of outcomes the code may show;
+   b. (Collect_rgen.cfg, -simulate) histories of up to 3 rounds, <= 3 clocks each;
+   c. (Collect_big.cfg, -simulate from InitBig) rounds with 5 .. 64 clocks of which a
+      prefix / suffix / random subset is blocked.
+3. harness/c16 runs every history on ONE real ReferenceClockClient in a synctest bubble.
+4. CollectTrace.tla, one record per round: monitor = Collect's property section on the
+   recorded round (VIOLATION); strict = membership in the TLC-computed set, or
+   Collect!OutcomeForm for rounds of histories / large rounds (DRIFT).
 """
 import collections, json, os, re
+from concurrent.futures import ThreadPoolExecutor
 import vlib
 
-KIND = {(1, "ok"): 0, (1, "err"): 1, (2, "ok"): 2, (2, "err"): 3, (3, "ok"): 4, (3, "err"): 5, (4, "err"): 6}
+NEVER = 9
+KIND = {(1, "ok"): 0, (1, "err"): 1, (2, "ok"): 2, (2, "err"): 3, (3, "ok"): 4, (3, "err"): 5, (NEVER, "err"): 6}
 MON = ["RByDeadline", "RExactlyOncePrefix", "RInTimeCounted", "RNoLeak", "RSecondCallRefused", "RCounterRestored"]
 ACTIONS = ["MCas", "MSpawn", "MCtx", "MExit", "MGoDrain", "MRestore", "DExit", "Timer", "Cancel", "Call2", "Fin2",
            "Tick", "MainNext", "DrainNext", "Urgent"]
-# single-site deviations of the spec and the clause TLC must refute for each
+# actions of the multi-round dimension that Collect_rounds.cfg must take
+ROUND_ACTIONS = ["NewRound", "OldNext"]
+# single-site deviations of the spec and the clause(s) TLC must refute for each
 FAULTS = {"nodrain": "NoStuckLeak", "drain_nj": "NoStuckLeak", "noguard": "SecondCallRefused",
-          "norestore": "CounterRestored", "noctx": "ByDeadline", "ij": None}
+          "norestore": "CounterRestored", "noctx": "ByDeadline", "ij": None,
+          "sharedchan": ("ExactlyOncePrefix", "InTimeCounted")}
+BLOCKED = (3, 5, NEVER)
 
 
 def scen_index(n, d, o):
@@ -39,13 +54,76 @@ def lead(ms):
 
 
 def scen_class(r):
-    ks = sorted({{1: "before", 2: "at", 3: "after", 4: "never"}[x] for x in r["d"]})
+    ks = sorted({{1: "before", 2: "at", 3: "after", 5: "longafter", NEVER: "never"}[x] for x in r["d"]})
     return "n=%d %s" % (r["n"], "+".join(ks) if ks else "none")
 
 
+def covered_actions(out, names):
+    """Names among `names` of which NO disjunct was ever taken (TLC -coverage lists a line per disjunct)."""
+    cov = collections.Counter()
+    for a, c in re.findall(r"^<(\w+) line [^>]*of module Collect[^>]*>: (\d+):\d+", out, re.M):
+        cov[a] = max(cov[a], int(c))
+    return [a for a in names if cov[a] == 0]
+
+
+def hist_key(rounds):
+    return json.dumps([(r["n"], r["d"], r["o"], r["gap"]) for r in rounds])
+
+
+def straggler_classes(rounds):
+    """Spec side: when do clocks of round r that are still measuring at its return finish, in the time frame of
+    round r+1 (which starts gap units after that return)?"""
+    res = set()
+    for a, b in zip(rounds, rounds[1:]):
+        for d in a["d"]:
+            if d in (3, 5) and d > a["rt"]:
+                rel = d - a["rt"] - b["gap"]
+                res.add("before_next_deadline" if rel < 2 else "at_next_deadline" if rel == 2 else "after_next_deadline")
+                if rel < b["rt"]:
+                    res.add("while_next_round_in_progress")
+    return res
+
+
+def blocked_prefix(r):
+    p = 0
+    while p < r["n"] and r["d"][p] in BLOCKED:
+        p += 1
+    return p
+
+
+
+
 def run(ctx):
+    ctx.specdir()
+    ex = ThreadPoolExecutor(max_workers=4)
+    try:
+        _run(ctx, ex)
+    finally:
+        ex.shutdown(wait=True, cancel_futures=True)
+
+
+def _run(ctx, ex):
     q = ctx.quick
-    # ---- 1. design level
+
+    def bg(*a, **kw):
+        return ex.submit(ctx.tlc, *a, specdir=ctx.private_specdir(), **kw)
+
+    def launch():
+        # ---- 1b/2b/2c run beside the single-round generator (at most 8 TLC workers in total)
+        # histories of rounds on one collector, exhaustively at small scope
+        f_rounds = bg("CollectMC", "Collect_rounds.cfg" if q else "Collect_rounds_deep.cfg", workers=4, timeout=900,
+                      coverage=True, tag="rounds")
+        # ... and sampled at a larger one, printed for the harness
+        f_rgen = bg("CollectMC", "Collect_rgen.cfg", workers=1, timeout=900,
+                    simulate="num=%d" % (1000 if q else 4000), depth=300, tag="gen-rounds")
+        # rounds with many clocks
+        f_big = bg("CollectMC", "Collect_big.cfg", workers=1, timeout=900,
+                   simulate="num=%d" % (150 if q else 1200), depth=600, tag="gen-big")
+        return f_rounds, f_rgen, f_big
+
+    # ---- 1. design level, single rounds
+    if q:
+        f_rounds, f_rgen, f_big = launch()
     # quick: one run decides the clauses for <= 3 clocks AND prints the final outcomes (Emit is part of
     # Collect_exh.cfg); thorough: <= 4 clocks, the generator is a separate single-worker run
     r = ctx.tlc("CollectMC", "Collect_exh.cfg" if q else "Collect_deep.cfg", timeout=900, coverage=q,
@@ -53,19 +131,13 @@ def run(ctx):
     maxn = 3 if q else 4
     ctx.log("TLC n<=%d: %d distinct states, safety clauses + NoLeak hold" % (maxn, r["distinct"]))
     if q:
-        cov = dict(re.findall(r"^<(\w+) line [^>]*of module Collect[^>]*>: (\d+):\d+", r["out"], re.M))
-        dead = [a for a in ACTIONS if int(cov.get(a, 0)) == 0]
+        dead = covered_actions(r["out"], ACTIONS)
         if dead:
             raise vlib.Inconclusive("Collect.tla: actions never taken in %s: %s" % (r["cfg"], dead))
         g = r
     else:
-        for f, clause in FAULTS.items():
-            fr = ctx.tlc("CollectMC", "Collect_f_%s.cfg" % f, timeout=300, allow_violation=True, tag="fault:" + f)
-            if not fr["violated"] or (clause and fr["violated"] != clause):
-                raise vlib.Inconclusive("spec self-test: deviation %s should violate %s, TLC says %s"
-                                        % (f, clause, fr["violated"]))
-        ctx.log("spec self-test: %d single-site deviations of Collect.tla each refuted by TLC" % len(FAULTS))
-        # ---- 2. scenarios and their allowed outcome sets, from TLC
+        f_rounds, f_rgen, f_big = launch()
+        # ---- 2a. scenarios and their allowed outcome sets, from TLC
         g = ctx.tlc("CollectMC", "Collect_gen.cfg", workers=1, timeout=900, tag="gen")
     outs = ctx.emitted(g["out"])
     by = collections.defaultdict(dict)
@@ -77,14 +149,105 @@ def run(ctx):
             rt=o["rt"], j=o["j"], prefix=sorted(o["prefix"]), phase=o["phase"], refused=o["refused"])
     if sorted(scen) != list(range(1, len(scen) + 1)) or len(scen) != sum(7 ** m for m in range(maxn + 1)):
         raise vlib.Inconclusive("generator did not cover all scenarios: %d" % len(scen))
-    cases = [scen[ix] for ix in sorted(scen)]
-    cp = ctx.path("cases.ndjson")
-    vlib.write_ndjson(cp, cases)
+    singles = [dict(id=ix, kind="single", rounds=[dict(n=scen[ix]["n"], d=scen[ix]["d"], o=scen[ix]["o"], gap=0)])
+               for ix in sorted(scen)]
     ap = ctx.path("allowed.ndjson")
     vlib.write_ndjson(ap, [dict(scen[ix], outs=list(by[ix].values())) for ix in sorted(scen)])
     nallowed = sum(len(v) for v in by.values())
-    ctx.log("TLC generator: %d scenarios, %d allowed (scenario, outcome) pairs from %d final states"
-            % (len(cases), nallowed, len(outs)))
+    ctx.log("TLC generator: %d single-round scenarios, %d allowed (scenario, outcome) pairs from %d final states"
+            % (len(singles), nallowed, len(outs)))
+
+    # ---- 1b. histories of rounds, design level
+    rr = f_rounds.result()
+    dead = covered_actions(rr["out"], ROUND_ACTIONS)
+    if dead:
+        raise vlib.Inconclusive("Collect.tla: actions of the multi-round dimension never taken in %s: %s" % (rr["cfg"], dead))
+    ctx.log("TLC histories of rounds on one collector (%s): %d distinct states, every clause holds for every round"
+            % (rr["cfg"], rr["distinct"]))
+    # ---- 2b. histories for the harness; vacuity guards on the SPEC side
+    hists, seenh = [], set()
+    for h in ctx.emitted(f_rgen.result()["out"]):
+        k = hist_key(h["rounds"])
+        if k not in seenh:
+            seenh.add(k)
+            hists.append(h["rounds"])
+    gen = collections.Counter()
+    for rounds in hists:
+        gen["histories"] += 1
+        gen["rounds"] += len(rounds)
+        gen["histories_of_%d_rounds" % len(rounds)] += 1
+        if any(x["live"] > 0 for x in rounds):
+            gen["histories_with_a_round_started_beside_live_goroutines"] += 1
+        gen["rounds_started_beside_live_goroutines"] += sum(1 for x in rounds if x["live"] > 0)
+        gen["rounds_started_one_unit_after_the_return"] += sum(1 for x in rounds[1:] if x["gap"] == 1)
+        for c in straggler_classes(rounds):
+            gen["histories_straggler_" + c] += 1
+    need = ["histories_with_a_round_started_beside_live_goroutines", "rounds_started_one_unit_after_the_return",
+            "histories_straggler_before_next_deadline", "histories_straggler_at_next_deadline",
+            "histories_straggler_after_next_deadline", "histories_straggler_while_next_round_in_progress",
+            "histories_of_3_rounds"]
+    weak = [k for k in need if gen[k] < 10]
+    if weak:
+        raise vlib.Inconclusive("vacuous history generator (Collect_rgen.cfg): %s" % {k: gen[k] for k in weak})
+    ctx.log("TLC generated %d distinct histories / %d rounds: %s" % (gen["histories"], gen["rounds"], dict(gen)))
+    # ---- 2c. rounds with many clocks
+    bigs, seenb = [], set()
+    for h in ctx.emitted(f_big.result()["out"]):
+        k = hist_key(h["rounds"])
+        if k not in seenb:
+            seenb.add(k)
+            bigs.append(h["rounds"])
+    bgen = collections.Counter()
+    for rounds in bigs:
+        x = rounds[0]
+        p = blocked_prefix(x)
+        nb = sum(1 for d in x["d"] if d in BLOCKED)
+        bgen["rounds"] += 1
+        bgen["n=%d" % x["n"]] += 1
+        if 0 < p < x["n"] and nb == p:
+            bgen["blocked_prefix"] += 1
+            if any(x["d"][k] == 1 and x["o"][k] == "ok" for k in range(p, x["n"])):
+                bgen["blocked_prefix_then_early_success"] += 1
+            if p >= 4:
+                bgen["blocked_prefix_of_4_or_more"] += 1
+            if p >= 16:
+                bgen["blocked_prefix_of_16_or_more"] += 1
+        elif 0 < nb < x["n"] and all(d in BLOCKED for d in x["d"][x["n"] - nb:]):
+            bgen["blocked_suffix"] += 1
+        elif 0 < nb < x["n"]:
+            bgen["blocked_subset"] += 1
+        elif nb == x["n"]:
+            bgen["all_blocked"] += 1
+        else:
+            bgen["none_blocked"] += 1
+    weak = [k for k in ["n=5", "n=8", "n=9", "n=12", "n=17", "n=33", "n=64", "blocked_prefix_then_early_success",
+                        "blocked_prefix_of_4_or_more", "blocked_prefix_of_16_or_more", "blocked_suffix",
+                        "blocked_subset"] if bgen[k] < 3]
+    if weak:
+        raise vlib.Inconclusive("vacuous large-round generator (Collect_big.cfg): %s" % {k: bgen[k] for k in weak})
+    ctx.log("TLC generated %d distinct rounds with 5..64 clocks: %s" % (len(bigs), dict(bgen)))
+    strip = lambda rounds: [dict(n=x["n"], d=x["d"], o=x["o"], gap=x["gap"]) for x in rounds]
+    cases = singles + [dict(id=0, kind="rounds", rounds=strip(h)) for h in hists] \
+        + [dict(id=0, kind="big", rounds=strip(h)) for h in bigs]
+    cp = ctx.path("cases.ndjson")
+    vlib.write_ndjson(cp, cases)
+
+    # thorough: three rounds and the spec's self-test run beside the Go driver (6 + 2 TLC workers)
+    f_r3 = f_self = None
+    if not q:
+        f_r3 = bg("CollectMC", "Collect_rounds3.cfg", workers=6, timeout=1500, tag="rounds3")
+
+        def selftest():
+            sd = ctx.private_specdir()
+            for f, clause in FAULTS.items():
+                fr = ctx.tlc("CollectMC", "Collect_f_%s.cfg" % f, timeout=600, allow_violation=True, tag="fault:" + f,
+                             workers=2, specdir=sd)
+                want = (clause,) if isinstance(clause, str) else clause
+                if not fr["violated"] or (want and fr["violated"] not in want):
+                    raise vlib.Inconclusive("spec self-test: deviation %s should violate %s, TLC says %s"
+                                            % (f, clause, fr["violated"]))
+            return len(FAULTS)
+        f_self = ex.submit(selftest)
 
     # ---- 3. the real code
     trace = ctx.path("trace.ndjson")
@@ -95,14 +258,24 @@ def run(ctx):
         ctx.log("driver stopped at a round that did not return: %s" % recs[-1]["note"])
     elif rc != 0 or not recs:
         raise vlib.Inconclusive("go driver c16/TestC16 failed (rc=%d):\n%s" % (rc, "\n".join(out.splitlines()[-60:])))
-    runs = sum(x["count"] for x in recs)
-    ctx.log("driver: %d runs, %d distinct (scenario, phase, observation) records" % (runs, len(recs)))
+    if not q:
+        r3 = f_r3.result()
+        ctx.log("TLC three rounds on one collector (%s): %d distinct states, every clause holds for every round"
+                % (r3["cfg"], r3["distinct"]))
+        ctx.log("spec self-test: %d single-site deviations of Collect.tla each refuted by TLC" % f_self.result())
+    kinds = collections.Counter()
+    for x in recs:
+        kinds[x["kind"]] += x["count"]
+    runs = sum(kinds.values())
+    ctx.log("driver: %d rounds run on the real code (%s), %d distinct (history, phases, observation, round) records"
+            % (runs, dict(kinds), len(recs)))
 
     # negative control of the binding: VERIF_C16_CORRUPT=<field> falsifies one
     # recorded field of one record; the monitor has to reject the trace
     cor = os.environ.get("VERIF_C16_CORRUPT")
     if cor:
-        victim = next(x for x in recs if x["n"] == 3 and lead(x["ms"]) == 2 and x["phase"] == "during")
+        victim = next(x for x in recs if x["kind"] == "single" and x["n"] == 3 and lead(x["ms"]) == 2
+                      and x["phase"] == "during")
         if cor == "ms":
             victim["ms"] = [victim["ms"][0], victim["ms"][0], 0]      # a result counted twice
         elif cor == "ms_tail":
@@ -113,6 +286,17 @@ def run(ctx):
             victim["leaked"] = 1
         elif cor == "refused":
             victim["refused"] = False
+        elif cor == "foreign":                                        # a result of an earlier round's clock
+            victim = next(x for x in recs if x["kind"] == "rounds" and x["rnd"] == 2 and x["live"] > 0
+                          and lead(x["ms"]) >= 1)
+            victim["ms"][0] = 99
+        elif cor == "swallowed":                                      # an in-time success of a later round missing
+            victim = next(x for x in recs if x["kind"] == "rounds" and x["rnd"] == 2 and x["live"] > 0
+                          and lead(x["ms"]) >= 1 and x["d"][x["ms"][0] - 1] == 1)
+            victim["ms"] = victim["ms"][1:] + [0]
+        elif cor == "big_late":
+            victim = next(x for x in recs if x["kind"] == "big" and x["n"] >= 9)
+            victim["rt"], victim["late"] = 3, True
         else:
             raise vlib.Inconclusive("unknown VERIF_C16_CORRUPT field " + cor)
         ctx.notes.append("trace corrupted on purpose: " + cor)
@@ -120,6 +304,13 @@ def run(ctx):
 
     # ---- 4. trace validation
     extra = {"allowed.ndjson": ap}
+
+    def strict():   # beside the monitor run, in its own copy of the spec directory (4 + 4 TLC workers)
+        r = ctx.tlc("CollectTrace", "CollectTrace_strict.cfg", workers=4, timeout=900, allow_violation=True,
+                    files=dict(extra, **{"trace.ndjson": trace}), tag="trace:CollectTrace_strict.cfg",
+                    specdir=ctx.private_specdir())
+        return not r["violated"], (ctx.trace_state_l(r["out"]) if r["violated"] else None), r["violated"], r["out"]
+    f_strict = ex.submit(strict)
     ok, l, inv, tout = ctx.validate("CollectTrace", "CollectTrace_mon.cfg", trace, extra_files=extra)
     nval = len(recs)
     if not ok:
@@ -137,23 +328,27 @@ def run(ctx):
                 raise vlib.Inconclusive("monitor %s failed but the record could not be identified:\n%s"
                                         % (m, tout[-1500:]))
             bad = recs[l1 - 1]
+            hist = cases[bad["hid"] - 1]
+            short = dict(bad, d="".join(map(str, bad["d"])), o="".join(x[0] for x in bad["o"])) if bad["n"] > 8 else bad
             ctx.violation("C16 %s MeasureClockOffsets" % m[1:],
-                          "real MeasureClockOffsets violates %s in scenario %s (d=%s o=%s phase=%s): rt=%s late=%s ms=%s "
+                          "real MeasureClockOffsets violates %s in round %d of %d of a %s history (%d earlier measurement "
+                          "calls still running at its start), scenario %s (d=%s o=%s phase=%s): rt=%s late=%s ms=%s "
                           "stable=%s leaked=%s exitdead=%s refused=%s mainpan=%s %s"
-                          % (m[1:], scen_class(bad), bad["d"], bad["o"], bad["phase"], bad["rt"], bad["late"], bad["ms"],
-                             bad["stable"], bad["leaked"], bad["exitdead"], bad["refused"], bad["mainpan"], bad["note"][:300]),
-                          bad)
+                          % (m[1:], bad["rnd"], bad["nrnd"], bad["kind"], bad["live"], scen_class(bad), short["d"],
+                             short["o"], bad["phase"], bad["rt"], bad["late"], bad["ms"], bad["stable"], bad["leaked"],
+                             bad["exitdead"], bad["refused"], bad["mainpan"], bad["note"][:300]),
+                          dict(record=bad, history=hist))
         if not ctx.violations and not ctx.known:
             raise vlib.Inconclusive("monitor failed (%s) but no single clause did" % inv)
-    sok, sl, sinv, sout = ctx.validate("CollectTrace", "CollectTrace_strict.cfg", trace, extra_files=extra)
+    sok, sl, sinv, sout = f_strict.result()
     if not sok:
         bad = recs[sl - 1] if sl and sl <= len(recs) else None
         ctx.drift.append("observation not among the outcomes of Collect!Next (%s): %s" % (sinv, bad))
 
-    # ---- coverage of the allowed sets by what the scheduler actually did
+    # ---- coverage of the allowed sets by what the scheduler actually did (enumerated single rounds)
     seen = collections.defaultdict(set)
     for x in recs:
-        if x["returned"]:
+        if x["returned"] and x["kind"] == "single":
             j = lead(x["ms"])
             seen[x["id"]].add(okey(x["rt"], x["ms"][:j], x["phase"], x["refused"]))
     reach = {ix: {k for k in v if not (scen[ix]["n"] == 0 and k[2] == "during")} for ix, v in by.items()}
@@ -165,26 +360,72 @@ def run(ctx):
     ctx.log("observed %d of %d allowed (scenario, outcome) pairs; %d scenarios fully covered; %d scenarios showed "
             "more than one (rt, prefix) outcome; %d observations outside the allowed sets"
             % (nseen, nreach, full, multi, outside))
-    nontrivial = len({(x["id"], x["phase"], x["rt"], tuple(x["ms"])) for x in recs if x["n"] >= 1})
-    pick = [x for x in recs if x["n"] == maxn and 4 in x["d"] and 2 in x["d"] and x["phase"] == "during"][:2]
+    # what the real histories exercised
+    real = collections.Counter()
+    for x in recs:
+        if x["kind"] == "rounds" and x["rnd"] > 1:
+            real["later_rounds"] += x["count"]
+            if x["live"] > 0:
+                real["later_rounds_started_beside_running_earlier_clocks"] += x["count"]
+        if x["kind"] == "big":
+            real["large_rounds"] += x["count"]
+            real["large_rounds_n=%d" % x["n"]] += x["count"]
+    ctx.log("real histories: %s" % dict(real))
+    if not ctx.violations and not ctx.known:
+        if real["later_rounds_started_beside_running_earlier_clocks"] == 0 or real["large_rounds_n=64"] == 0:
+            raise vlib.Inconclusive("vacuous replay: %s" % dict(real))
+    nontrivial = len({(x["hid"], x["rnd"], x["phase"], x["rt"], tuple(x["ms"])) for x in recs if x["n"] >= 1})
+    pick = [x for x in recs if x["kind"] == "single" and x["n"] == maxn and NEVER in x["d"] and 2 in x["d"]
+            and x["phase"] == "during"][:1]
+    hs = next((x["hid"] for x in recs if x["kind"] == "rounds" and x["rnd"] == 2 and x["live"] > 0 and x["n"] >= 2), None)
+    pick += [x for x in recs if x["hid"] == hs][:3]
+    pick += [dict(x, d="".join(map(str, x["d"])), o="".join(y[0] for y in x["o"]))
+             for x in recs if x["kind"] == "big" and x["n"] >= 12][:1]
+    ctx.notes.append(
+        "dimension MULTI-ROUND histories on one collector: TLC decided every clause for every round of every history "
+        "of %s (%d distinct states); TLC generated %d distinct histories / %d rounds, of which %d histories have a round "
+        "that starts while goroutines of earlier rounds are alive (%d such rounds; stragglers finishing before / at / "
+        "after the next round's deadline in %d / %d / %d histories, while the next round is in progress in %d); "
+        "replayed: %d later rounds on the real code, %d of them started while earlier measurement calls were still running"
+        % (rr["cfg"], rr["distinct"], gen["histories"], gen["rounds"],
+           gen["histories_with_a_round_started_beside_live_goroutines"], gen["rounds_started_beside_live_goroutines"],
+           gen["histories_straggler_before_next_deadline"], gen["histories_straggler_at_next_deadline"],
+           gen["histories_straggler_after_next_deadline"], gen["histories_straggler_while_next_round_in_progress"],
+           real["later_rounds"], real["later_rounds_started_beside_running_earlier_clocks"]))
+    ctx.notes.append(
+        "dimension NUMBER OF CLOCKS at real sizes: TLC generated %d distinct rounds with n in {5,8,9,12,17,33,64} (%s); "
+        "%d with a blocked prefix followed by other clocks (%d of them followed by an early success, %d with a prefix of "
+        ">= 4 and %d of >= 16 clocks), %d with a blocked suffix, %d with a blocked random subset; replayed %d large "
+        "rounds on the real code"
+        % (len(bigs), ", ".join("%s: %d" % (k, bgen[k]) for k in sorted(bgen, key=lambda s: (len(s), s)) if k.startswith("n=")),
+           bgen["blocked_prefix"], bgen["blocked_prefix_then_early_success"], bgen["blocked_prefix_of_4_or_more"],
+           bgen["blocked_prefix_of_16_or_more"], bgen["blocked_suffix"], bgen["blocked_subset"], real["large_rounds"]))
     ctx.cov.update(
         evaluations=runs, distinct_nontrivial=nontrivial,
-        rule="every scenario with 0..%d clocks (per clock: result ready before/at/after the deadline with value or error, "
-             "or blocked until cancellation) enumerated by TLC from Collect.tla, each run %s times on the real "
-             "MeasureClockOffsets under synctest with seeded scheduler perturbation and a second call during/after/never; "
-             "distinct_nontrivial = distinct (scenario, phase, return time, result slice) with at least one clock"
-             % (maxn, "60" if q else "500"),
+        rule="rounds run on the real MeasureClockOffsets under synctest with seeded scheduler perturbation and a second "
+             "call during/after/never, from three TLC generators over Collect.tla: (a) every single-round scenario with "
+             "0..%d clocks (per clock: result ready before/at/after the deadline with value or error, or blocked until "
+             "cancellation), each run %s times; (b) TLC -simulate histories of up to 3 rounds on ONE collector (<= 3 "
+             "clocks per round, clocks answering up to 5 units after their round's start, the next round starting 0 or "
+             "1 units after the previous return), each run %s times; (c) TLC -simulate rounds with 5..64 clocks of "
+             "which a prefix/suffix/random subset is blocked, each run %s times; distinct_nontrivial = distinct "
+             "(history, round, phase, return time, result slice) with at least one clock"
+             % (maxn, "60" if q else "500", "8" if q else "24", "8" if q else "20"),
         traces_validated_against_impl=nval, exhaustive=True,
-        scenarios=len(cases), allowed_pairs=nreach, allowed_pairs_observed=nseen,
+        scenarios=len(singles), allowed_pairs=nreach, allowed_pairs_observed=nseen,
         scenarios_fully_covered=full, scenarios_with_scheduler_dependent_outcome=multi,
         observations_outside_allowed=outside,
-        samples=recs[:1] + pick + recs[len(recs) // 2:len(recs) // 2 + 2] + recs[-1:])
+        histories_generated=dict(gen), large_rounds_generated=dict(bgen), real_histories=dict(real),
+        samples=recs[:1] + pick + recs[-1:])
     ctx.assumptions += [
         "virtual time of testing/synctest = the maximal-progress time of Collect.tla (time advances only when every "
         "goroutine of the bubble is durably blocked)",
-        "small scope: <= 3 (quick) / <= 4 (thorough) reference clocks; completion times abstracted to before/at/after the deadline/never",
-        "scripted clocks return by 3 units or at ctx.Done; the caller cancels after return as sync.measureOffsetToRefClks does",
+        "small scope for the exhaustive part: <= 3 (quick) / <= 4 (thorough) reference clocks in single rounds; histories "
+        "of 2 rounds with <= 2 clocks (and 3 rounds in the thorough tier); completion times abstracted to "
+        "before/at/after the deadline/long after/never; the next round starts 0 or 1 units after the previous return",
+        "rounds with 5..64 clocks and histories of 3 rounds with <= 3 clocks are sampled (TLC -simulate), not enumerated",
+        "scripted clocks return by 5 units or at ctx.Done; the caller cancels after return as sync.measureOffsetToRefClks does",
         "goroutines left behind are detected by stack inspection (frames of core/client in the bubble) and, independently, "
-        "by synctest's bubble-exit check",
+        "by synctest's bubble-exit check, once per history after every clock of every round has returned",
         "a select is modelled as a free choice among ready cases; the real scheduler's choice is checked for membership "
         "(strict, DRIFT), the property clauses decide the verdict"]
